@@ -526,9 +526,9 @@ def c19(tier):
         "states": max(1, distinct.get("states", 0)), "transitions": tot.get("callbacks", 0),
         "traces_validated_against_impl": tot.get("executions", 0), "samples": samples[:5], "exhaustive": exhaustive,
         "levels_completed": levels, "distinct_outcomes": distinct.get("outcomes", 0),
-        "explanation": "deviation-bounded exhaustive exploration of the environment of the real executor (BUILD_EXECUTOR build): twelve solved plans "
+        "explanation": "deviation-bounded exhaustive exploration of the environment of the real executor (BUILD_EXECUTOR build): thirteen solved plans "
                        "(two state-variable atoms meeting at a time point; an impulse coinciding with an interval start; a rule creating a "
-                       "predecessor; a disjunction; fractional times 21/4..25/4; an atom with constant times; two uses competing for a reusable resource; three atoms chained on a state variable; two atoms on different state variables tied by equalities; an agent with an impulse followed by an interval; two plans with strict inequalities, whose planned times carry an infinitesimal part) x units_per_tick in {1, 1/2, 2}. A "
+                       "predecessor; a disjunction; fractional times 21/4..25/4; an atom with constant times; two uses competing for a reusable resource; three atoms chained on a state variable; two atoms on different state variables tied by equalities; an agent with an impulse followed by an interval; two plans with strict inequalities, whose planned times carry an infinitesimal part; a goal with three alternatives of which one depends on the end of another atom, explored with one deviation less) x units_per_tick in {1, 1/2, 2}. A "
                        "recording executor_listener is the environment: at every starting()/ending() callback the explorer picks from "
                        "{no request, dont_start_yet / dont_end_yet for one notified atom with delay 1 or 2}; before every tick() from {nothing, "
                        "failure({a}) for one running atom}. Default = no request; ALL executions with at most 3 (thorough 4, then 5 while the deadline allows) non-default answers "
